@@ -94,6 +94,8 @@ def new_scn(pkgs):
             "init": {},                    # relpath below the scenario root -> bytes | "DIR"
             "ro": [],                      # relpaths made read-only before the run
             "links": {},                   # relpath -> symlink target (relative to the link's directory)
+            "cwd": "m",                    # physical working directory (holds .mockery.yml), below the scenario root
+            "pwd": None,                   # the name under which it is entered ($PWD): a path through a symlink, or None
             "gomod": GOMOD_STD, "extra_mods": {},   # reldir below m/ -> go.mod text
             "env": {},
             "tags": [],                    # injected failure classes (names of Coq fclass) and notes
@@ -323,7 +325,8 @@ def resolve(scn, S):
                     if s1 != "TOk" and st == "TOk":
                         st = s1
                 key = posixpath.normpath(posixpath.join(vals["dir"], vals["filename"])) if st == "TOk" else "?" + iname
-                phys = key if key.startswith("/") else posixpath.normpath(posixpath.join(m, key))
+                # a relative output path is resolved by the kernel from the PHYSICAL working directory
+                phys = key if key.startswith("/") else posixpath.normpath(posixpath.join(S, scn.get("cwd", "m"), key))
                 rel = posixpath.relpath(phys, S)
                 td = merged_data(ch)
                 # replace-type makes the preparation fail when a parameter of that type exists
@@ -367,7 +370,7 @@ def resolve(scn, S):
         r["exclude"] = [{"valid": rx_valid(rx), "matches": [s_ for s_ in r["subs"] if rx_valid(rx) and go_search(rx, s_)]} for rx in r["excl"]]
     fsinfo = {"dirs": {k for k, v in scn["init"].items() if v == "DIR"}, "files": {k for k, v in scn["init"].items() if v != "DIR"},
               "ro": set(scn["ro"])}
-    return {"cfg": scn["cfg_status"], "roots": roots, "pkgs": pkgs, "templates": templates, "aux_ok": scn["aux_ok"], "fsinfo": fsinfo}
+    return {"cfg": derive_cfg_status(scn), "roots": roots, "pkgs": pkgs, "templates": templates, "aux_ok": scn["aux_ok"], "fsinfo": fsinfo}
 
 
 # ---------------- Python mirror of the selection (only to enumerate map keys / expectations) ------
@@ -526,7 +529,8 @@ def materialize(scn, S, with_init=True):
     for f in PROBES.glob("c10_*"):
         shutil.copy(str(f), os.path.join(tpl, f.name))
     if not scn["no_config"]:
-        with open(os.path.join(m, ".mockery.yml"), "wb") as f:
+        os.makedirs(os.path.join(S, scn.get("cwd", "m")), exist_ok=True)
+        with open(os.path.join(S, scn.get("cwd", "m"), ".mockery.yml"), "wb") as f:
             f.write(config_bytes(scn))
     if with_init:
         for rel, content in scn["init"].items():
@@ -636,7 +640,9 @@ def run_mockery(ctx, scn, S, args=()):
         if pre is False:
             return None
         cmd = pre + cmd
-    p = run(cmd, cwd=os.path.join(S, "m"), env=env, timeout=120)
+    wd = os.path.join(S, scn.get("pwd") or scn.get("cwd", "m"))
+    env["PWD"] = wd                     # the logical working directory, as a shell would export it
+    p = run(cmd, cwd=wd, env=env, timeout=120)
     out = p.stdout + p.stderr
     panic = (p.returncode == 2 and b"goroutine " in out) or b"\npanic: " in b"\n" + out
     cls = "Panic" if panic else ("Exit0" if p.returncode == 0 else "ExitErr")
@@ -697,6 +703,15 @@ def execute(ctx, scn, idx, base=None):
         return res
     unlock(S)
     after = snapshot(S)
+    if scn.get("rerun") and base is not None:
+        # the corrected configuration (= the valid base, overwriting allowed) in the SAME tree
+        b2 = bind(dict(copy.deepcopy(base), root=dict(base["root"], **{"force-file-write": True}), cwd=scn.get("cwd", "m"), pwd=scn.get("pwd"),
+                       env=scn["env"]), S)
+        with open(os.path.join(S, b2.get("cwd", "m"), ".mockery.yml"), "wb") as f:
+            f.write(config_bytes(b2))
+        res["run2"] = run_mockery(ctx, dict(b2, ro=[]), S)
+        res["after2"] = snapshot(S)
+        res["world2"] = resolve(b2, S)
     # struct names present in the outputs (direct check that a mock was generated)
     present = {}
     for p, q in selected(world):
@@ -881,6 +896,8 @@ def classes_of(world):
     cl = set()
     if world["cfg"] == "CfgUnknownKey":
         cl.add("UnknownKey")
+    elif world["cfg"] == "CfgBadRegex":
+        cl.add("InvalidRegexWritten")
     elif world["cfg"] != "CfgOk":
         cl.add("ConfigUnreadable")
     if not world["pkgs"]:
@@ -1477,6 +1494,41 @@ def inj_listed_multi(rng, scn):
     scn["tags"].append("level:multi")
 
 
+def inj_bad_regex_unread(rng, scn, how):
+    """an invalid regular expression in a place where the run never consults it"""
+    bad = rng.choice(BAD_RX[:4] + BAD_RX[5:])
+    if how == "subpkg-leaf":
+        # recursive: true on a package without sub-packages (in-package mocks: no directory of an earlier
+        # run counts as one), the invalid exclude-subpkg-regex on the package or inherited from the root
+        path = rng.choice(sorted(p for p in selecting(scn) if name_of(p) in ("a", "b", "c", "uni")) or [None])
+        if path is None:
+            raise IndexError("no leaf package")
+        ent = ensure_cfg(scn, path)
+        ent["config"]["recursive"] = True
+        tgt = rng.choice([scn["root"], ent["config"]])
+        tgt["exclude-subpkg-regex"] = rng.sample(["zzz", "^nomatch"], rng.randint(0, 1)) + [bad]
+    elif how == "no-ifaces":
+        name = rng.choice(["consts", "nodecl"])
+        scn["pkgs"].append(name)
+        c = {"include-interface-regex": bad} if rng.random() < 0.5 else {"include-interface-regex": ".*", "exclude-interface-regex": bad}
+        scn["packages"][pkg_path(name)] = {"config": c}
+    elif how == "all-true":
+        path = rng.choice(sorted(selecting(scn)))
+        ent = ensure_cfg(scn, path)
+        ent["config"]["all"] = True
+        ent["config"][rng.choice(["include-interface-regex", "exclude-interface-regex"])] = bad
+    elif how == "not-recursive":
+        scn["root"]["exclude-subpkg-regex"] = [bad]
+        scn["root"].pop("recursive", None)
+        for e in scn["packages"].values():
+            if lvl(lvl(e, "config"), "recursive"):
+                e["config"]["recursive"] = False
+    else:  # below the package level, where these settings mean nothing
+        lv, d, path = level_dict(rng, scn, ("iface", "entry"))
+        d[rng.choice(["include-interface-regex", "exclude-interface-regex"])] = bad
+    scn["tags"] += ["InvalidRegexWritten", "level:unread-" + how]
+
+
 def inj_bad_regex_later_pkg(rng, scn):
     """the invalid regex only on the package that comes last (by path); the earlier ones are fine"""
     cands = sorted(p for p in scn["packages"] if name_of(p) in ("a", "b", "c"))
@@ -1651,6 +1703,11 @@ INJECTIONS = {
     "TemplateExecutionLater": later("template-data", [{"boom-read": True}, {"boom-index": True}], "TemplateExecution", trap=True),
     "InvalidGoOutputLater": later("template-data", [{"boom-syntax": True}], "InvalidGoOutput", trap=True, entry=True),
     "BadRegexLaterPkg": inj_bad_regex_later_pkg,
+    "BadRegexSubpkgLeaf": lambda rng, scn: inj_bad_regex_unread(rng, scn, "subpkg-leaf"),
+    "BadRegexNoIfaces": lambda rng, scn: inj_bad_regex_unread(rng, scn, "no-ifaces"),
+    "BadRegexAllTrue": lambda rng, scn: inj_bad_regex_unread(rng, scn, "all-true"),
+    "BadRegexNotRecursive": lambda rng, scn: inj_bad_regex_unread(rng, scn, "not-recursive"),
+    "BadRegexBelowPackage": lambda rng, scn: inj_bad_regex_unread(rng, scn, "below-package"),
     "WriteFailsDir": inj_write_fails_dir, "WriteFailsParentFile": inj_write_fails_parent_file,
     "WriteFailsReadOnly": inj_write_fails_readonly, "WriteFaultDevFull": inj_write_fault,
     "PkgLoadError": inj_pkg_load_error,
@@ -1678,7 +1735,7 @@ FAIL_CLASSES = {"ListedMissing", "PkgLoadError", "UnknownTemplate", "MissingRemo
                 "ConfigUnreadable", "UnknownKey", "BadRegexSubpkg", "BadRegexInterface", "CyclicTemplate", "BadTemplatedValue",
                 "SchemaMissing", "SchemaReject", "TemplateSyntax", "TemplateExecution", "InvalidGoOutput", "PrepareFailure",
                 "ConflictPackage", "ConflictPkgName", "ConflictTemplate", "NoPackages",
-                "OutputIsDirectory", "OutputParentIsFile", "OutputReadOnly", "OutputWriteFault"}
+                "OutputIsDirectory", "OutputParentIsFile", "OutputReadOnly", "OutputWriteFault", "InvalidRegexWritten"}
 
 # ---- valid but unusual inputs ----
 GOMOD_SPELLINGS = [
@@ -1953,6 +2010,37 @@ def has_unknown_key(scn):
     return False
 
 
+def has_bad_regex(scn):
+    """an invalid regular expression written anywhere in the configuration (root, package, interface,
+    configs entry), consulted or not"""
+    def bad(d):
+        if not isinstance(d, dict):
+            return False
+        for k in ("include-interface-regex", "exclude-interface-regex"):
+            if isinstance(d.get(k), str) and not rx_valid(d[k]):
+                return True
+        return any(isinstance(x, str) and not rx_valid(x) for x in (d.get("exclude-subpkg-regex") or []))
+    if bad(scn["root"]):
+        return True
+    for e in scn["packages"].values():
+        if e is None:
+            continue
+        if bad(e.get("config")):
+            return True
+        for ie in (e.get("interfaces") or {}).values():
+            if ie and (bad(ie.get("config")) or any(bad(c) for c in (ie.get("configs") or []))):
+                return True
+    return False
+
+
+def derive_cfg_status(scn):
+    """cfg_status of the configuration that is finally emitted"""
+    if scn["raw_config"] is not None or scn["no_config"]:
+        return scn["cfg_status"]
+    bad_type = any(isinstance(scn["root"].get(k), dict) for k in ("all", "force-file-write"))
+    return "CfgUnknownKey" if has_unknown_key(scn) else ("CfgBadType" if bad_type else ("CfgBadRegex" if has_bad_regex(scn) else "CfgOk"))
+
+
 def init_consistent(scn):
     """no initial file or link lies below a path that is itself a regular file or a link"""
     filelike = {k for k, v in scn["init"].items() if v != "DIR"} | set(scn.get("links", {}))
@@ -1982,8 +2070,7 @@ def apply_injections(rng, kinds_):
         if s["raw_config"] is None and not s["no_config"]:
             # the abstract world is derived from the configuration that is finally emitted: a later
             # injection may have overwritten an earlier one's edit
-            bad_type = any(isinstance(s["root"].get(k), dict) for k in ("all", "force-file-write"))
-            s["cfg_status"] = "CfgUnknownKey" if has_unknown_key(s) else ("CfgBadType" if bad_type else "CfgOk")
+            s["cfg_status"] = derive_cfg_status(s)
         # the base only configures packages that are in its tree (an injection into a package that
         # an earlier injection added to the scenario must not leak into the base)
         for pth in list(base["packages"]):
@@ -2228,7 +2315,7 @@ def check(ctx, only=None):
         pairs = [(s, (dict(new_scn(b["pkgs"]), **b) if b else None)) for s, b in pairs]
     else:
         nk = len(INJECTIONS)
-        pairs = gen_scenarios(ctx, n_inj=(nk * 6 if big else nk), n_combo=(120 if big else 8),
+        pairs = gen_scenarios(ctx, n_inj=(nk * 6 if big else nk), n_combo=(120 if big else 6),
                               n_unusual=(len(UNUSUAL) * 8 if big else len(UNUSUAL) + 3), n_valid=(60 if big else 8))
         pairs += [(alias_witness(ctx.rng), None) for _ in range(2)]
     results = run_pipeline_stream(ctx, pairs, oracle_c09)
@@ -2313,7 +2400,7 @@ def check(ctx, only=None):
         else:
             cat_src = str(rp["what"][0])
         cat = kind + "|" + re.sub(r"[0-9a-f]{8,}|/tmp/\S+|\d+", "#", cat_src)[:90] + "|" + ",".join(
-            sorted(t.split(":")[-1] if t.startswith("unusual") else t.split(":")[0] for t in rp.get("readable", {}).get("tags", [])))
+            sorted(t.split(":")[-1] if t.startswith(("unusual", "level:unread")) else t.split(":")[0] for t in rp.get("readable", {}).get("tags", [])))
         fail_cats[cat] = fail_cats.get(cat, 0) + 1
         if cat not in seen_cat:
             seen_cat.add(cat)
